@@ -96,7 +96,10 @@ def gen_scene(rng, quick, i):
         pol[(ax + 1) % 3], pol[(ax + 2) % 3] = 1.0, rng.choice([0.0, 0.5])
         srcs.append({"kind": rng.choice(["plane", "gauss"]), "axis": ax, "pos": rng.randint(lo[ax], hi[ax] - 1), "dir": rng.choice("+-"), "pol": pol, "radius": 1.5e-7})
     eps9 = [2.0, 0.3, 0.1, 0.3, 2.5, 0.2, 0.1, 0.2, 3.0]
-    blocks = [{"box": box(2), "eps": rng.choice([2.25] if len(srcs) == 3 else [2.25, [2.0, 3.0, 4.0], eps9]), "sigma_e": rng.choice([None, 5e-4])}]
+    mu9 = [1.6, 0.2, 0.1, 0.2, 1.2, 0.15, 0.1, 0.15, 2.2]
+    blocks = [{"box": box(2), "eps": rng.choice([2.25] if len(srcs) == 3 else [2.25, [2.0, 3.0, 4.0], eps9]), "sigma_e": rng.choice([None, 5e-4]),
+               # the permeability tier is drawn independently of the permittivity tier (1 / 3 / 9 components each)
+               "mu": rng.choice([None, 1.5] if len(srcs) == 3 else [None, 1.5, [1.6, 1.0, 2.2], mu9]), "sigma_m": rng.choice([None, 50.0])}]
     dets = [{"kind": "field", "box": box(), "name": "fd", "opts": {"exact_interpolation": False}},
             {"kind": "phasor", "box": box(), "name": "ph", "opts": {"exact_interpolation": False}},
             {"kind": "energy", "box": box(), "name": "en", "opts": {"as_slices": False, "exact_interpolation": False}}]
@@ -143,6 +146,17 @@ def gen_cases(ctx):
     s1 = perm_spec(s0)
     s2 = perm_spec(s1)
     cases.append({"kind": "triple", "specs": [s0, s1, s2]})
+    # mixed storage tiers: isotropic permittivity with diagonal permeability, diagonal permittivity with full permeability tensor
+    mu9 = [1.6, 0.2, 0.1, 0.2, 1.2, 0.15, 0.1, 0.15, 2.2]
+    for eps, mu in ctx.pick([(2.25, [1.6, 1.0, 2.2])], [(2.25, [1.6, 1.0, 2.2]), ([2.0, 3.0, 4.0], mu9), (2.25, mu9), ([2.0, 3.0, 4.0], 1.5)]):
+        s0 = {"shape": [6, 5, 7], "spacing": 5e-8, "steps": ctx.pick(5, 8), "thickness": 1,
+              "bt": {"min_x": "pec", "max_x": "pmc", "min_y": "periodic", "max_y": "periodic", "min_z": "pmc", "max_z": "pec"},
+              "sources": [{"kind": "dipole", "cell": [2, 2, 3], "pol": ctx.rng.randint(0, 2)}, {"kind": "dipole", "cell": [3, 1, 2], "pol": ctx.rng.randint(0, 2), "mag": True}],
+              "detectors": [{"kind": "field", "box": [[1, 5], [0, 5], [1, 6]], "name": "fd", "opts": {"exact_interpolation": False}}],
+              "blocks": [{"box": [[1, 5], [0, 4], [1, 5]], "eps": eps, "mu": mu, "sigma_e": None}]}
+        s1 = perm_spec(s0)
+        s2 = perm_spec(s1)
+        cases.append({"kind": "triple", "specs": [s0, s1, s2]})
     # model tie: a small PML-free scene in three orientations, stepped by forward()
     m0 = {"shape": [3, 4, 5], "spacing": 5e-8, "courant": "exact_half", "steps": 2,
           "bt": {"min_x": "pec", "max_x": "pmc", "min_y": "periodic", "max_y": "periodic", "min_z": "pmc", "max_z": "pec"},
